@@ -115,7 +115,7 @@ Fixpoint ridder (fuel : nat) (f : T -> T) (acc x1 x2 f1 f2 result : T) : res T :
   match fuel with
   | O => Ok result        (* "Warning ... Iterations exceed the maximum": the last iterate is returned *)
   | S fuel' =>
-      let x3 := ((x1 + x2) / #2)%num in
+      let x3 := (dec 1 2 * x1 + dec 1 2 * x2)%num in
       let f3 := f x3 in
       (* scale = max(|f3|, max(|f1|, |f2|)); g_i = f_i / scale; Ridder's point from the g_i; NaN -> midpoint *)
       let sc := nmax Ops (nabs Ops f3) (nmax Ops (nabs Ops f1) (nabs Ops f2)) in
